@@ -277,15 +277,6 @@ impl vstd::std_specs::ops::AddAssignSpecImpl<Uint128> for Uint128 {
     open spec fn add_assign_spec(&self, rhs: Uint128) -> &Self { arbitrary() }
 }
 
-// cosmwasm_std::coin(amount, denom: impl Into<String>)
-pub trait IntoStr { spec fn str_view(&self) -> Seq<char>; }
-impl IntoStr for String { open spec fn str_view(&self) -> Seq<char> { self@ } }
-impl<'a> IntoStr for &'a String { open spec fn str_view(&self) -> Seq<char> { self@ } }
-impl<'a> IntoStr for &'a str { open spec fn str_view(&self) -> Seq<char> { self@ } }
-#[verifier::external_body]
-pub fn coin<S: IntoStr>(amount: u128, denom: S) -> (r: Coin)
-    ensures r.amount.u == amount, r.denom@ == denom.str_view()
-{ unimplemented!() }
 
 // ---- staking query responses (cosmwasm_std::{Delegation, FullDelegation, DelegationResponse, ...}): plain records
 pub struct Delegation { pub delegator: Addr, pub validator: String, pub amount: Coin }
